@@ -1,40 +1,17 @@
-"""Per-property configuration for ./check"""
-TRUSTED_BASE = [
-    'Coq 8.16.1 kernel (coqc); coqchk re-check in setup; vm_compute used in finite sweeps and Examples; native_compute not used',
-    'axioms: none (every property theorem is reported "Closed under the global context" by Print Assumptions)',
-    'extraction: Require Extraction + ExtrOcamlBasic only (its Extract Inductive bool/option/unit/list/prod/sumbool/sumor and inlined andb/orb/negb/fst/snd); no Extract Constant of our own; OCaml 4.13.1 ocamlopt; hand-written runner/driver.ml (parsing, comparison)',
-    'correspondence check: Rust harness /verif/harness (LedgerHal, ModelTransport, emulated MMIO/PCI devices, reference devices, generators) built from /repo working tree with --cfg virtio_drivers_verif, debug and release; a divergence the generators do not reach is not detected',
-    'the hand-written Gallina model (coq/theories/Model) and the flat encodings in Extract/Dispatch.v',
-    'rustc/cargo as installed',
-]
-PROPS = {
-    'C06': dict(models=['Model/Layout.v'], exhaustive=True,
-                assumptions=['Hal::dma_alloc returns page-aligned, non-overlapping regions (hypotheses of C06_regions)',
-                             'zeroing of DMA memory is the platform\'s duty; the check observes that the driver stores nothing but descriptor links before queue_set'],
-                trusted_extra=['drop order of VirtQueueLayout fields is transcribed (tied by the observed dealloc order)']),
-    'C01': dict(models=['Model/Queue.v'], design_ref='DESIGN.md 3.0, 3 C01',
-                assumptions=['caller contract of add: buffers non-empty and shorter than 2^32 (bufs_ok)', 'sequentially consistent memory'],
-                trusted_extra=['harness reference device walks chains through device addresses resolved by the ledger Hal']),
-    'C02': dict(models=['Model/Queue.v'], design_ref='DESIGN.md 3 C02',
-                assumptions=['memory is sequentially consistent: fences are events whose position is proved and compared; their hardware effect is trusted', 'source lint: fence(SeqCst) between ring-slot store and Release store of idx'],
-                level_note='PARTIAL with respect to weak memory: the theorems cover the order of stores and the completeness of every outstanding entry under sequential consistency. Trusted: Coq kernel, extraction, hand-written model, harness, the semantics of fence(SeqCst)/Release.'),
-    'C03': dict(models=['Model/Queue.v'], design_ref='DESIGN.md 3 C03',
-                assumptions=['caller contract of pop_used: the buffers passed are those submitted for the token (keys match)']),
-    'C04': dict(models=['Model/Queue.v'], design_ref='DESIGN.md 3 C04',
-                assumptions=['LedgerHal is the instrumented platform: every share bounced to a distinct device address, copy-in at share, copy-back at unshare']),
-    'C05': dict(models=['Model/Queue.v'], design_ref='DESIGN.md 3 C05',
-                assumptions=['batch between two checks is between 1 and 2^15 entries', 'co-simulation is sequentially consistent and single-threaded (device runs inside notify or inside the busy-wait hook)']),
-    'C19': dict(models=['Model/Queue.v', 'Model/Owning.v'], design_ref='DESIGN.md 3 C19',
-                assumptions=['the handler passed to poll returns normally (a panicking handler loses the buffer, as documented in the code)',
-                             'bytes are not part of the Coq model: delivery of exactly the device-written bytes is checked on the implementation by the monitors (kinds 1950/1951) and follows from C04 (copy-back at unshare)'],
-                trusted_extra=['VirtIOInput::pop_pending_event, VirtIOSound::latest_notification and the vsock rx queue are tied by monitors / their own properties; the OwningQueue model is tied line by line']),
-    'C10': dict(models=['Model/Mmio.v', 'Model/MmioSpec.v'], design_ref='DESIGN.md 3 C10',
-                assumptions=['argument ranges are those of the Rust types (queue index < 2^16, size/status/page size < 2^32, addresses and feature words < 2^64); every read answer is a u32',
-                             'the register tables of Model/MmioSpec.v are a faithful copy of VirtIO 1.2 sections 4.2.2 and 4.2.4 (written from the specification, not from the driver)',
-                             'a device that never answers 0 to the QueueReady read-back keeps modern queue_unset spinning, as 4.2.2.2 asks; the model takes the answers up to the first 0',
-                             'begin_init receives a value of a flags type, so its bits are among the defined ones (from_bits_truncate(device) & supported = device & supported)'],
-                trusted_extra=['safe-mmio: a field!(..).read()/write() on a 4-byte field is ONE 32-bit access (backend/mmio_ops.rs); the harness replaces its backend by a logging one (custom-mmio), so width, offset, order and direction of every access of the real transport are observed, not assumed',
-                               'emulated register file: identification registers constant, every other read answered from the scenario stream']),
-}
+"""Per-property configuration for ./check: loaded from tools/spec.d/Cxx.py (PROPS_ENTRY)."""
+import glob, os
+TRUSTED_BASE = ['Coq 8.16.1 kernel (coqc); coqchk re-check in setup; vm_compute used in finite sweeps and Examples; native_compute not used',
+ 'axioms: none (every property theorem is reported "Closed under the global context" by Print Assumptions)',
+ 'extraction: Require Extraction + ExtrOcamlBasic only (its Extract Inductive bool/option/unit/list/prod/sumbool/sumor and inlined andb/orb/negb/fst/snd); no '
+ 'Extract Constant of our own; OCaml 4.13.1 ocamlopt; hand-written runner/driver.ml (parsing, comparison)',
+ 'correspondence check: Rust harness /verif/harness (LedgerHal, ModelTransport, emulated MMIO/PCI devices, reference devices, generators) built from /repo '
+ 'working tree with --cfg virtio_drivers_verif, debug and release; a divergence the generators do not reach is not detected',
+ 'the hand-written Gallina model (coq/theories/Model) and the flat encodings in Extract/Dispatch.v',
+ 'rustc/cargo as installed']
+PROPS = {}
+for _f in sorted(glob.glob(os.path.join(os.path.dirname(os.path.abspath(__file__)), 'spec.d', 'C*.py'))):
+    _ns = {}
+    exec(open(_f).read(), _ns)
+    if _ns.get('PROPS_ENTRY'): PROPS[os.path.basename(_f)[:-3]] = _ns['PROPS_ENTRY']
 HOOK_COMMITS = ['d6ca0bd', 'd91ee48']
 NOT_YET = {}
